@@ -533,6 +533,7 @@ pub fn apply_update(s: &mut UpdateStatement, c: &J) {
     }
     match op {
         "table" => { s.table(table_ref(&c["t"])); }
+        "table_as" => { s.table(table_ref(&c["t"]).alias(a(&st(c, "a")))); }
         "from" => { s.from(table_ref(&c["t"])); }
         "value" => { s.value(a(&st(c, "col")), expr(&c["e"])); }
         "and_where" => { s.and_where(expr(&c["e"])); }
